@@ -8,6 +8,7 @@ package main
 import (
 	"bytes"
 	"encoding/binary"
+	"flag"
 	"fmt"
 	"net"
 	"sort"
@@ -940,6 +941,8 @@ func genCase(cfg *RunCfg) *script {
 	return sc
 }
 
+var modeFlag = flag.String("mode", "server", "server | bearer")
+
 func main() {
 	cfg := ParseFlags()
 	Quiet()
@@ -949,6 +952,10 @@ func main() {
 	probe.meta = []byte("k=v")
 	if !bytes.Equal(encode(probe), realPack(probe)) {
 		Must(fmt.Errorf("harness frame encoder disagrees with rawProto.Pack: %x vs %x", encode(probe), realPack(probe)))
+	}
+	if *modeFlag == "bearer" {
+		runBearer(cfg)
+		return
 	}
 	srv := erpc.NewPeer(erpc.PeerConfig{}, theChecker, recorder{})
 	srv.RouteCall(new(App))
